@@ -199,6 +199,7 @@ func (sc *scen) step(st planStep, flavor string) { sc.stepX(st, flavor, false) }
 // RPC's handler holds the contract lock: it has to be refused and to change nothing.
 func (sc *scen) stepX(st planStep, flavor string, inner bool) {
 	w := sc.w
+	sc.unit = types.ZeroCurrency
 	if st.Kind == "expire" {
 		// mine until the tip is at the proof height of the current contract ("none"),
 		// one below it ("ph-1") or one above it ("ph+1")
@@ -1131,8 +1132,8 @@ func runC08(c *hx.Ctx) {
 			}
 			p.Steps = append(p.Steps, planStep{Kind: "latest", Mut: "none"})
 			c.Res.CountN("sweep:corruptions-of-"+k, len(kindMuts[k]))
-		case i >= 16 && i <= 19 && os.Getenv("VERIF_C08_BLOCK_BETWEEN_PHASES") == "1":
-			// opt-in (see checks/C08.json): the tip reaches the proof height while a
+		case i >= 16 && i <= 19 && os.Getenv("VERIF_C08_BLOCK_BETWEEN_PHASES") != "0":
+			// on by default since fix f324264 (see checks/C08.json): the tip reaches the proof height while a
 			// two-phase revising RPC waits for the renter's signature
 			p.Flavor, p.Late, p.Settings = "short", false, ""
 			p.Steps = []planStep{{Kind: "form", Mut: "none"}, {Kind: "append", Mut: "none"}, {Kind: "append", Mut: "none"}, {Kind: "fund", Mut: "none"},
